@@ -378,6 +378,21 @@ def check_expand_wrappers(cx: Cx, ob: Ob) -> None:
             ob.funnel(fn.qualname, where(fn, line), f"expand_pair returns `{show(t)[:70]}`, not expand_reference(...)", any(self_call(x, me, "expand_reference") for x, _ in s.returns()), "expand_reference")
             continue
         pa = reftuple_args(t[2][0]) if t[2] else None
+        # the property speaks about strings: a path taken only for another type of argument (a float identifier
+        # from a dataframe) is outside it, and str(x) of a string is x
+        STR_T = ("builtin", "str")
+
+        def _non_str_only(g) -> bool:
+            a_ = g.a
+            if not (g.kind == "guard" and g.b is True and op(a_) == "call" and a_[1] == ("builtin", "isinstance") and len(a_[2]) == 2 and a_[2][0] in (("param", "prefix"), ("param", "identifier"))):
+                return False
+            ts = a_[2][1][1] if op(a_[2][1]) == "tuple" else (a_[2][1],)
+            return STR_T not in ts
+
+        if any(_non_str_only(g) for g in ctx.guards):
+            continue
+        if pa is not None:
+            pa = tuple(x[2][0] if op(x) == "call" and x[1] == STR_T and len(x[2]) == 1 and not x[3] and op(x[2][0]) == "param" else x for x in pa)
         if pa != (("param", "prefix"), ("param", "identifier")):
             ob.violate(fn.qualname, where(fn, line), f"expand_pair builds its reference from `{show(t[2][0])[:60] if t[2] else '?'}`, not (prefix, identifier) in that order", detail="pair")
         _flags_forwarded(ob, fn, t, line, ("strict", "passthrough"))
